@@ -52,6 +52,8 @@ ASSUMPTIONS = [
     "sorted and mapping keys are compared without order; lists and every byte of JSON/GenBank text are compared in order.",
     "The input sequence is replaced by its digest in JSON and GenBank dumps (it is input, not result); dates and "
     "timestamps are replaced by placeholders.",
+    "Inputs of the filter functions hold no two identical hits (same gene, profile, coordinates and score): hmmsearch "
+    "does not report a domain twice; which of two identical hits survives filter_results is not observable in values.",
     "No HMMER binary exists: profile hits reach the pipeline through DynamicProfile callables and "
     "hmm_detection.get_ruleset is replaced by the generated ruleset; find_hmmer_hits itself is not executed, its "
     "two filter functions are called directly on generated hits. nrps_pks_domains results are not replayed.",
@@ -85,17 +87,6 @@ def _pairs(obj):
 
 def _canon(obj) -> str:
     return json.dumps(obj, sort_keys=True)
-
-
-def _unordered(obj):
-    """ order-free canonical form: used to tell 'same content, other order' from 'other content' """
-    if isinstance(obj, dict):
-        if "__pairs__" in obj and len(obj) == 1:
-            return {"__dict__": sorted(([k, _unordered(v)] for k, v in obj["__pairs__"]), key=_canon)}
-        return {k: _unordered(v) for k, v in sorted(obj.items())}
-    if isinstance(obj, list):
-        return sorted((_unordered(v) for v in obj), key=_canon)
-    return obj
 
 
 def _key(name: str) -> str:
@@ -140,19 +131,16 @@ def jdiff(a, b, path: str, out: list, limit: int = 6) -> None:
             jdiff(a[k], b[k], f"{path}.{_key(k)}", out, limit)
         return
     if isinstance(a, list) and isinstance(b, list):
-        if _canon(_unordered(a)) == _canon(_unordered(b)):
-            # same content: find the shallowest list whose own order differs
-            if len(a) == len(b) and sorted(map(_canon, a)) != sorted(map(_canon, b)):
-                for x, y in zip(a, b):
-                    jdiff(x, y, path + "[]", out, limit)
-                return
-            out.append((path + "[]", "reordered", _short(a), _short(b)))
-            return
         if len(a) != len(b):
             out.append((path + "[]", "length", _short(a), _short(b)))
             return
-        for x, y in zip(a, b):
-            jdiff(x, y, path + "[]", out, limit)
+        differing = [i for i, (x, y) in enumerate(zip(a, b)) if x != y]
+        if len(differing) > 1 and sorted(_canon(a[i]) for i in differing) == sorted(_canon(b[i]) for i in differing):
+            # the same items in another order
+            out.append((path + "[]", "reordered", _short(a), _short(b)))
+            return
+        for i in differing:
+            jdiff(a[i], b[i], path + "[]", out, limit)
         return
     if type(a) is not type(b):
         out.append((path, "type", _short(a), _short(b)))
@@ -318,27 +306,13 @@ def _loc(text: str):
 
 
 def unordered_by_location(loc_x: str, loc_y: str) -> bool:
-    """ True when the location-only comparison used for sorting areas cannot order the two: identical coordinates,
-        or an area not crossing the origin that contains an origin-crossing one (containment says 'first', the
-        shifted start of the origin-crossing one says 'first' as well) """
-    if loc_x == loc_y:
-        return True
-    for outer, inner in ((loc_x, loc_y), (loc_y, loc_x)):
-        (oparts, obridge), (iparts, ibridge) = _loc(outer), _loc(inner)
-        if not obridge and ibridge and oparts:
-            start, end = min(s for s, _ in oparts), max(e for _, e in oparts)
-            if all(start <= s and e <= end for s, e in iparts):
-                return True
-    return False
+    """ True when the location-only comparison used for sorting areas cannot order the two: identical coordinates """
+    return loc_x == loc_y
 
 
-def _explained(x, y, items, loc) -> bool:
-    """ an inverted pair of a sorted list is explained by the comparison when the two do not order, or when either
-        of them fails to order with some other item of the list (sorting with a comparison that is not a strict
-        weak order may then misplace it relative to everything) """
-    if unordered_by_location(loc(x), loc(y)):
-        return True
-    return any(loc(z) != loc(w) and unordered_by_location(loc(z), loc(w)) for w in (x, y) for z in items)
+def _explained(x, y, _items, loc) -> bool:
+    """ an inverted pair of a sorted list is explained by the location-only comparison when the two do not order """
+    return unordered_by_location(loc(x), loc(y))
 
 
 def _inversions(order_a, order_b):
@@ -526,6 +500,7 @@ class Comparator:
         self.ref = None
         self.facts = {}           # (idx, order) -> tie facts seen in the reference
         self.reported = set()     # (idx, order, stage, path)
+        self.variants = set()     # (idx, order, stage, digest of a differing dump) already analysed
         self.differing_inputs = set()
         self.stage_names = set()
         self.compared_children = 0
@@ -562,6 +537,10 @@ class Comparator:
                     if name not in stages or name not in other:
                         paths = [("STAGE-MISSING", "keys", "", "")]
                     else:
+                        variant = (idx, order, name, core.digest(other[name]))
+                        if variant in self.variants:
+                            continue        # another child already produced exactly this dump
+                        self.variants.add(variant)
                         paths = where_differs(name, stages[name], other[name])
                     if relation is None:
                         relation = pair_facts(stages, other)
@@ -603,9 +582,16 @@ def run_batch(ctx, cases, children, parallel):
     done, probes, failures = [], {}, 0
     comparator = None
 
+    fingerprints = {}
+
     def take(results):
-        nonlocal failures, comparator
+        nonlocal failures
         for label, err, tail, data in results:
+            if err is None:
+                fingerprints[label] = data["meta"].get("code_fingerprint")
+                if len(set(fingerprints.values())) > 1 and fingerprints[label] != next(iter(fingerprints.values())):
+                    err, tail = "code under test changed while the batch was running", ""
+                    ctx.count("info:code-under-test-changed-during-run")
             ctx.count("children:started")
             if err is not None:
                 failures += 1
@@ -648,6 +634,8 @@ def run_batch(ctx, cases, children, parallel):
     ctx.extra["children_compared_with_first"] = max(ctx.extra.get("children_compared_with_first", 0),
                                                     comparator.compared_children if comparator else 0)
     ctx.extra["inputs"] = ctx.extra.get("inputs", 0) + len(kept)
+    ctx.extra["code_fingerprints"] = sorted(set(ctx.extra.get("code_fingerprints", []))
+                                            | {f for f in fingerprints.values() if f})
     return failures == 0 and len(done) == len(children)
 
 
@@ -770,12 +758,12 @@ def _c17_formation_order(clause, facts):
 @findings.classifier("c17_region_unique_protocluster_set_order")
 def _c17_region_unique_order(clause, facts):
     """ Region.get_unique_protoclusters sorts a set of protoclusters: with the location-only comparison (regions not
-        crossing the origin) equal coordinates - and whole-record vs origin-crossing extents, which that comparison
-        does not order consistently - keep set iteration order; in origin-crossing regions the key (start, -length,
-        product) leaves equal-coordinate protoclusters of one product in set order. The numbering of
-        protoclusters in records.areas follows object addresses.
-        Must not hide: order changes among protoclusters of different products and equal coordinates in an
-        origin-crossing region (the product tie-break), a different set of protoclusters, or other keys. """
+        crossing the origin) protoclusters of identical coordinates keep set iteration order; in origin-crossing
+        regions the key (start, -length, product) leaves equal-coordinate protoclusters of one product in set order.
+        The numbering of protoclusters in records.areas follows object addresses.
+        Must not hide: order changes among protoclusters of different coordinates, or of different products and
+        equal coordinates in an origin-crossing region (the product tie-break), a different set of protoclusters,
+        or other keys. """
     stage, path = _stage_path(clause)
     if stage is None or not _path_allowed(_K5_PATHS, stage, path):
         return False
